@@ -5,5 +5,7 @@ Spec == Init /\ [][Next]_vars
 Obs == {"codes", "sh", "op", "stop", "dcl", "dw", "lo", "rlo", "login", "proc", "acc", "sent", "started", "done"}
 Bound == /\ x.nep <= 2 /\ x.ndt <= 2 /\ x.nav <= 2 /\ x.buf <= 1 /\ Len(x.queue) <= 1
          /\ TLCGet("level") <= 9
+BoundT == /\ x.nep <= 3 /\ x.ndt <= 2 /\ x.nav <= 2 /\ x.buf <= 1 /\ Len(x.queue) <= 2
+          /\ TLCGet("level") <= 10
 View == <<cfg, [f \in (DOMAIN x) \ Obs |-> x[f]], last.e>>
 =============================================================================
